@@ -32,6 +32,10 @@ class CreateInsertExtractor(BaseExtractor):
     ) -> SubQueryLineageHolder:
         holder = self._init_holder(context)
         src_flag = tgt_flag = False
+        # an explicit column list always wins over target columns known from metadata
+        has_column_list = any(
+            self._is_column_list(segment) for segment in list_child_segments(statement)
+        )
         for segment in list_child_segments(statement):
             if segment.type == "with_compound_statement":
                 holder |= self.delegate_to_cte(segment, holder)
@@ -110,6 +114,7 @@ class CreateInsertExtractor(BaseExtractor):
                         isinstance(write_obj, Table)
                         and self.metadata_provider
                         and statement.type == "insert_statement"
+                        and not has_column_list
                     ):
                         holder.add_write_column(
                             *self.metadata_provider.get_table_columns(table=write_obj)
@@ -126,6 +131,20 @@ class CreateInsertExtractor(BaseExtractor):
                     holder.add_read(SqlFluffTable.of(segment))
                 src_flag = False
         return holder
+
+    @staticmethod
+    def _is_column_list(segment: BaseSegment) -> bool:
+        if segment.type != "bracketed" or any(
+            segment.recursive_crawl(
+                "select_statement", "set_expression", "with_compound_statement"
+            )
+        ):
+            return False
+        sub_segments = list_child_segments(segment)
+        return len(sub_segments) > 0 and all(
+            sub_segment.type in ["column_reference", "column_definition"]
+            for sub_segment in sub_segments
+        )
 
     def delegate_to_cte(
         self, segment: BaseSegment, holder: SubQueryLineageHolder
